@@ -105,6 +105,7 @@ func TestWorker(t *testing.T) {
 	}
 	dumpOnly := os.Getenv("VERIF_DUMP") != ""
 	violations := 0
+	known := loadKnown(os.Getenv("VERIF_KNOWN_FILE"))
 	base := simrt.NewRNG(seed).Sub(prop)
 	for run := lo; run < hi; run += stride {
 		if time.Now().After(deadline) {
@@ -126,6 +127,12 @@ func TestWorker(t *testing.T) {
 		if samples > 0 {
 			samples--
 			emit(outLine{Type: "sample", Run: run, Scenario: truncated(sc)})
+		}
+		if res.Violation != nil && known.match(prop, res.Violation) {
+			// a recorded known finding: reported by the supervisor as KNOWN-FINDING;
+			// no minimisation, and the worker keeps going
+			emit(outLine{Type: "result", Run: run, Result: res})
+			continue
 		}
 		if res.Violation != nil {
 			violations++
@@ -182,4 +189,54 @@ func truncated(sc *simrt.Scenario) *simrt.Scenario {
 	}
 	c.Tape = nil
 	return c
+}
+
+type knownFinding struct {
+	Property string `json:"property"`
+	Class    string `json:"class"`
+	Sig      string `json:"sig"`
+	Status   string `json:"status"`
+}
+type knownList []knownFinding
+
+func loadKnown(path string) knownList {
+	if path == "" {
+		return nil
+	}
+	b, err := os.ReadFile(path)
+	if err != nil {
+		return nil
+	}
+	var f struct {
+		Findings []knownFinding `json:"findings"`
+	}
+	if json.Unmarshal(b, &f) != nil {
+		return nil
+	}
+	return f.Findings
+}
+
+func (k knownList) match(prop string, v *simrt.Violation) bool {
+	for _, f := range k {
+		if f.Status == "known" && f.Property == prop && f.Class == v.Class && glob(f.Sig, v.Sig) {
+			return true
+		}
+	}
+	return false
+}
+
+// glob matches pattern p against s where '*' matches any run of characters.
+func glob(p, s string) bool {
+	if p == "" {
+		return s == ""
+	}
+	if p[0] == '*' {
+		for i := 0; i <= len(s); i++ {
+			if glob(p[1:], s[i:]) {
+				return true
+			}
+		}
+		return false
+	}
+	return s != "" && p[0] == s[0] && glob(p[1:], s[1:])
 }
